@@ -38,7 +38,8 @@ RULE = ("registry DAGs of 3-6 registries of one flavour (chains of 3-5 with one 
         "(warm caches); a rebuild stream (the same chains with rebuild() of registries that have sub-registries, "
         "followed by re-basing / changing the rebuilt registry; one provided interface per case so that replay order "
         "cannot matter); plus random mixed histories (shared generator, re-basing weight raised) and a "
-        "Components stream (chains/diamonds of zope.interface.registry.Components, __bases__ reassigned at every "
+        "a third of the registry-stream cases runs on registry subclasses whose instances are falsy (__len__ = own "
+        "registrations, with some registries kept empty, or __bool__ False); a Components stream (chains/diamonds of zope.interface.registry.Components, __bases__ reassigned at every "
         "level, registerAdapter/registerUtility/registerSubscriptionAdapter, queryAdapter/queryMultiAdapter/"
         "queryUtility/getUtilitiesFor/subscribers; judged by the Spec oracle only).  A case is non-trivial when some "
         "query op repeated after a re-base returned a different answer than before; distinct = (stream, flavour, "
@@ -335,6 +336,16 @@ def gen_chain_case(rng, fl, rebuild=False):
     return world
 
 
+def _empty_some(rng, case):
+    """leave one or two non-top registries without adapter registrations of their own (falsy under __len__)
+    until the end of the history: drop the ``register`` ops addressed to them"""
+    n = sum(1 for op in case["ops"] if op[0] == "newreg")
+    if n < 2:
+        return
+    empty = set(rng.sample(range(1, n), min(n - 1, rng.choice([1, 1, 2]))))
+    case["ops"] = [op for op in case["ops"] if not (op[0] == "register" and op[1] in empty)]
+
+
 def gen_random_case(rng):
     world, ifaces, classes = RC.gen_world(rng, n_ifaces=rng.choice([3, 4, 5]), n_classes=rng.choice([0, 2, 3]))
     w = {"rebuild": 0, "setregbases": 4, "registered": 0.3, "subscribed": 0.3,
@@ -434,6 +445,13 @@ def generate(run, tier):
         cases.append(gen_chain_case(rng, "push" if i % 2 == 0 else "verifying"))
     for i in range(20 if not big else 200):
         cases.append(gen_chain_case(rng, "push" if i % 2 == 0 else "verifying", rebuild=True))
+    # a share of the registry-stream cases runs on registry SUBCLASSES whose instances are falsy (__len__ =
+    # number of own registrations, or __bool__ = False): nothing in the chain logic may depend on truthiness
+    for i, c in enumerate(cases):
+        if i % 3 == 1:
+            c["regclass"] = rng.choice(["len", "len", "false"])
+            if c["regclass"] == "len" and rng.random() < 0.7:
+                _empty_some(rng, c)
     for _ in range(36 if not big else 380):
         cases.append(gen_random_case(rng))
     for _ in range(20 if not big else 200):
@@ -482,7 +500,8 @@ def classify(case, obs):
 
 def kind(case, obs):
     ops = _ops(case, obs) if "answers" in obs else case.get("ops", [["?", "?"]])
-    return "%s/%s" % (case.get("stream"), ops[0][1] if ops else "?")
+    return "%s/%s%s" % (case.get("stream"), ops[0][1] if ops else "?",
+                        "/falsy-" + case["regclass"] if case.get("regclass") else "")
 
 
 def finding_key(case, obs, mode):
@@ -533,6 +552,16 @@ def replay_text(case, obs, mode):
             L.append("O.append(C%d())" % o["cls"])
             if o.get("direct"):
                 L.append("directlyProvides(O[-1], %s)" % ", ".join("I%d" % b for b in o["direct"]))
+    if case.get("regclass") == "len":
+        L += ["class AdapterRegistry(AdapterRegistry):",
+              "    def __len__(self): return sum(1 for _ in self.allRegistrations())",
+              "class VerifyingAdapterRegistry(VerifyingAdapterRegistry):",
+              "    def __len__(self): return sum(1 for _ in self.allRegistrations())"]
+    elif case.get("regclass") == "false":
+        L += ["class AdapterRegistry(AdapterRegistry):",
+              "    def __bool__(self): return False",
+              "class VerifyingAdapterRegistry(VerifyingAdapterRegistry):",
+              "    def __bool__(self): return False"]
     L.append("R = []")
     if case.get("stream") == "comp":
         L.append("# (translated from a Components history: registry 2k = component k .adapters, 2k+1 = .utilities;")
